@@ -25,7 +25,9 @@ import AtreeProofs.Codec.BudgetSlab
   element loops and the child-header loops on their iteration count, the CBOR validator `wfRun` on a
   fuel argument that is the input length, the mutually recursive decoders of nested storables and
   map elements on a fuel argument that `decodeSlabGen` sets to the input length plus one (exhausted
-  fuel is an `error`, never a `panic`).  There is no `partial` definition in the model.
+  fuel is an `error`, never a `panic`; it is never what decides: `decodeSlab_fuel_irrelevant`,
+  Props/C19Fuel.lean).  There is no `partial` definition in the model.
+  The accessors `ByteSize` / `ChildStorables`: Props/C19Acc.lean (`accessors_never_panic`).
 -/
 namespace Atree.C19
 open Atree Atree.Codec Atree.Gen
@@ -104,14 +106,16 @@ theorem decodeBytes_copy_le_consumed {t : Nat} {b : Bytes} {d d' : Dec} (hi : De
     (h : d.decodeBytes = some (b, d')) : d.consumed + b.length + 1 ≤ d'.consumed ∧ d'.consumed ≤ t :=
   ⟨(decodeBytes_inv hi h).2, (decodeBytes_inv hi h).1.consumed_le⟩
 
-/-- The only fuel in the model — the validator's, set to the input length — is never what makes an
-    input invalid: any larger amount gives the same verdict. -/
+/-- The validator's fuel — set to the input length — is never what makes an input invalid: any larger
+    amount gives the same verdict.  (The other fuel of the model, that of the mutually recursive
+    decoders of nested storables and map elements, is covered by `C19.decodeSlab_fuel_irrelevant`,
+    Props/C19Fuel.lean.) -/
 theorem validator_fuel_irrelevant (data : Bytes) (fuel : Nat) (h : data.length ≤ fuel) :
     wfRun fuel [.items 0 0] data = wfNext data :=
   wfRun_fuel_irrelevant fuel data.length _ data h (Nat.le_refl _)
 
-/-- The accessors of a decoded slab are total functions of the model (`ByteSize`, `ChildStorables`
-    read fields that every decoder path initialises); stated for the record. -/
-theorem accessors_total (s : Slab) : ∃ n l, s.byteSize = n ∧ s.childStorables = l := ⟨_, _, rfl, rfl⟩
+-- `accessors_total` (a trivial statement about the total functions `byteSize` / `childStorables`) has been
+-- replaced by `C19.accessors_never_panic` (Props/C19Acc.lean): the Go accessors transcribed in the
+-- ok | error | panic monad over a raw slab representation with nil / foreign slots.
 
 end Atree.C19
